@@ -340,7 +340,8 @@ def talkpagename_fn(
         return ctx.NAMESPACE_DATA["Talk"]["name"] + ":" + ctx.title
     else:
         prefix = ctx.title[:ofs]
-        if prefix not in ctx.NAMESPACE_DATA:
+        if prefix + " talk" not in ctx.NAMESPACE_DATA:
+            # not a subject namespace with a talk namespace of its own
             return ctx.NAMESPACE_DATA["Talk"]["name"] + ":" + ctx.title
         return (
             ctx.NAMESPACE_DATA[prefix + " talk"]["name"]
@@ -393,7 +394,10 @@ def talkspace_fn(
     implementation is very minimal."""
     t = expander(args[0]) if args else ctx.title or "ERROR_NAMESPACE"
     for prefix in ctx.NAMESPACE_DATA:
-        if t.startswith(prefix + ":"):
+        if (
+            t.startswith(prefix + ":")
+            and prefix + " talk" in ctx.NAMESPACE_DATA
+        ):
             return ctx.NAMESPACE_DATA[prefix + " talk"]["name"]
     return ctx.NAMESPACE_DATA["Talk"]["name"]
 
@@ -1117,7 +1121,9 @@ def expr_fn(
     except (ArithmeticError, ValueError, TypeError):
         # Domain, overflow and type errors of the math functions
         # (ln 0, acos 2, 10^1000, exp 1000, x round 1.5, nan/inf results)
-        return '<strong class="error">Expression error: invalid value</strong>'
+        return (
+            '<strong class="error">Expression error: invalid value</strong>'
+        )
 
 
 def padleft_fn(
